@@ -85,6 +85,7 @@ func (r *drep) value() interface{} { return plainCopy(r.doc.GetValue()) }
 
 var docSerial int
 var docRetouch = -1
+var docLastDel = -1
 
 func (w *dworld) rndJSON(depth int) interface{} {
 	rng := w.c.Rng
@@ -301,8 +302,17 @@ func (w *dworld) rndCall(cur interface{}) dcall {
 			pos = docRetouch
 		}
 	}
+	k := rng.Intn(10)
+	if k >= 5 && docLastDel > 0 && docLastDel <= size && rng.Intn(2) == 0 {
+		pos = docLastDel - 1 // a delete / update that starts just before the place of the last delete: batches reach across the tombstone
+	} else if k >= 5 && docRetouch > 0 && docRetouch <= size && rng.Intn(3) == 0 {
+		pos = docRetouch - 1
+	}
 	docRetouch = pos
-	switch k := rng.Intn(10); {
+	if k >= 5 && k < 8 {
+		docLastDel = pos
+	}
+	switch {
 	case k < 5:
 		n := 1 + rng.Intn(3)
 		vals := make([]interface{}, n)
@@ -357,7 +367,7 @@ func (w *dworld) rndCall(cur interface{}) dcall {
 			return err
 		}}
 	default:
-		n := 1 + rng.Intn(2)
+		n := 1 + rng.Intn(3)
 		vals := make([]interface{}, n)
 		for i := range vals {
 			vals[i] = w.rndJSON(1)
@@ -520,6 +530,10 @@ func (w *dworld) localWith(ri int, cs dcall) {
 		w.c.Violate("C03", "document-invalid-call-accepted", fmt.Sprintf("the invalid call %s on %s was accepted and the document now reads %s", cs.desc, jsonStr(before), jsonStr(after)), w.desc)
 	} else if !reflect.DeepEqual(after, want) {
 		w.c.Violate("C03", "document-differs-from-plain-json", fmt.Sprintf("after %s on %s the document reads %s, the plain JSON value reads %s", cs.desc, jsonStr(before), jsonStr(after), jsonStr(want)), w.desc)
+		if strings.Contains(cs.gal, "(DIns ") || strings.Contains(cs.gal, "(DDel ") || strings.Contains(cs.gal, "(DUpd ") {
+			// an array call that leaves other elements than the slice operation does: an element lost, duplicated, brought back or displaced
+			w.c.Violate("C04", "document-array-elements-differ", fmt.Sprintf("after %s on %s the document reads %s, the array operation on the plain value gives %s", cs.desc, jsonStr(before), jsonStr(after), jsonStr(want)), w.desc)
+		}
 	}
 	if !ok && len(r.pending()) != nb {
 		w.c.Violate("C03", "document-failed-call-left-operations", fmt.Sprintf("the failing call %s queued %d operations", cs.desc, len(r.pending())-nb), w.desc)
